@@ -192,11 +192,15 @@ def ddmin(items, test, budget):
     return items
 
 
-def shrink(ctx, mod, scn, cls, budget=400):
-    """minimise the scenario while the same violation class persists"""
+def shrink(ctx, mod, scn, cls, budget=400, wall_s=90.0):
+    """minimise the scenario while the same violation class persists (bounded in re-runs and in wall time)"""
     b = [budget]
+    t_end = time.time() + wall_s
 
     def still(s):
+        if time.time() > t_end:
+            b[0] = 0
+            return False
         try:
             ev = mod.evaluate(ctx, s)
         except Exception:
